@@ -1,7 +1,8 @@
 """C07 - exceptions unwind to the right handler; finally runs exactly once (DESIGN 5/C07).
 
 Families of spec/C07.tla (throw site x handler placement x intermediate try x expression context; one try in
-a loop with every exit kind in try / catch / finally; error objects) are enumerated by TLC on the reference
+a loop with every exit kind in try / catch / finally; error objects; where the faulting node stands in its statement;
+programs of n rounds of throw-and-catch in one evaluation, n up to more than the engine's nesting budget) are enumerated by TLC on the reference
 machine (FinallyOnce, TryAccounting, KontWF, CatchGetsThrown on every state / transition), replayed into the
 engine and judged by TLC.  Every program that reports locations is also rendered k lines lower and k columns to
 the right (k in {1, 7}); TLC checks that the reported locations shift by exactly k.
@@ -77,7 +78,8 @@ def run(rep):
             raise Machinery("reference machine could not run an enumerated program (%s): %s" % (verdicts[c["id"]].get("why"), c["par"]))
     c05.report(rep, allc, results, verdicts)
     # code -> spec: instruction traces of the enumerated programs against the JsVM throw rule (JsVM_Trace)
-    c05.trace_stage(rep, [c for c in cases if (c.get("steps") or 0) <= 1600], int(os.environ.get("C07_NTRACE", "300" if rep.tier == "quick" else "2000")))
+    # (programs of many rounds are left out here: their instruction traces exceed the trace driver's event limit)
+    c05.trace_stage(rep, [c for c in cases if not (c["fam"] == "RP" and c["par"]["n"] > 4)], int(os.environ.get("C07_NTRACE", "300" if rep.tier == "quick" else "2000")))
     # shift law, judged on pairs (base rendering, shifted rendering)
     srecs = []
     for c in shifted:
